@@ -117,7 +117,7 @@ impl Scenario for Ribbit {
         "exploration"
     }
     fn rule(&self) -> &'static str {
-        "Per run: a generated build database of 1-6 records (server configuration: one CDN host and path, or - one run in six - several hosts, hosts with query parameters, no host, a default path with a trailing slash or empty; shapes: dates in March 2024 or - one database in five - across 1999 ... 9999 and all months; build numbers now and then 0 / 2^31-1 / 2^31 / 2^32-1; one database in ten with two products whose names differ only in case, a trailing '_' or '.classic'; one in thirty with one product of 300-800 builds, one in thirty with 120-300 products (summary of tens of KiB); one in five written with absent optional fields left out and an unknown key; record ids unique or - one database in five - repeating / descending / near u64::MAX; one database in ten with one build_time string for all records; product names command-safe, one database in twenty with a LONG one - 200 to 4000 bytes, among them lengths that put the TCP request line just below / at / above 1 KiB; version/build/keyring/cdn_path strings from the classes plain, digits, leading zeros, with '|', with '#', with spaces, with CR/LF, non-ASCII, 1 KiB long, look-alikes of the wire framing (MIME boundary, Checksum line, BPSV type marker, seqn line), non-numeric build, non-hex keyring; several builds per product with RFC 3339 timestamps in varying offsets and precisions incl. exact ties) is written to the sandbox and loaded by the REAL server state; databases the server rejects are vacuous. The real TCP accept loop + handle_connection run on the simulated listener and the real axum Router is driven in-process; 1-5 clients start concurrently at seeded virtual times: well-formed requests through the real RibbitClient (TCP v1 with MIME + checksum verification, TCP v2) and real TactClient (HTTP), and malformed ones (unknown product/version, wrong arity, empty line, 64 KiB line, non-UTF-8, never terminated, one byte per virtual second, connect-and-close) over raw simulated connections. Oracle: every row's typed fields equal the record with the chronologically newest build_time of that product; malformed requests end in an error reply or a closed connection within 10 virtual minutes (the server's own read time-out is 10 s; the bound is generous because that time-out is tuning, not part of the property); no task panics; after the last malformed client has started a fresh well-formed request is answered correctly within 3 virtual seconds (a server that serialises connections behind a stalled client takes its whole read time-out). Non-trivial = >= 2 clients; distinct = hash of (case, outcomes)."
+        "Per run: a generated build database of 1-6 records (server configuration: one CDN host and path, or - one run in six - several hosts, hosts with query parameters, no host, a default path with a trailing slash or empty; shapes: dates in March 2024 or - one database in five - across 1999 ... 9999 and all months; build numbers now and then 0 / 2^31-1 / 2^31 / 2^32-1; one database in ten with two products whose names differ only in case, a trailing '_' or '.classic'; one in thirty with one product of 300-800 builds, one in thirty with 120-300 products (summary of tens of KiB); one in five written with absent optional fields left out and an unknown key; record ids unique or - one database in five - repeating / descending / near u64::MAX; one database in ten with one build_time string for all records; one in eight with one date and time-of-day (first 19 bytes) for all records and differing fractions of a second / offsets behind it; product names command-safe, one database in twenty with a LONG one - 200 to 4000 bytes, among them lengths that put the TCP request line just below / at / above 1 KiB; version/build/keyring/cdn_path strings from the classes plain, digits, leading zeros, with '|', with '#', with spaces, with CR/LF, non-ASCII, 1 KiB long, look-alikes of the wire framing (MIME boundary, Checksum line, BPSV type marker, seqn line), non-numeric build, non-hex keyring; several builds per product with RFC 3339 timestamps in varying offsets and precisions incl. exact ties) is written to the sandbox and loaded by the REAL server state; databases the server rejects are vacuous. The real TCP accept loop + handle_connection run on the simulated listener and the real axum Router is driven in-process; 1-5 clients start concurrently at seeded virtual times: well-formed requests through the real RibbitClient (TCP v1 with MIME + checksum verification, TCP v2) and real TactClient (HTTP), and malformed ones (unknown product/version, wrong arity, empty line, 64 KiB line, non-UTF-8, never terminated, one byte per virtual second, connect-and-close) over raw simulated connections. Oracle: every row's typed fields equal the record with the chronologically newest build_time of that product; malformed requests end in an error reply or a closed connection within 10 virtual minutes (the server's own read time-out is 10 s; the bound is generous because that time-out is tuning, not part of the property); no task panics; after the last malformed client has started a fresh well-formed request is answered correctly within 3 virtual seconds (a server that serialises connections behind a stalled client takes its whole read time-out). Non-trivial = >= 2 clients; distinct = hash of (case, outcomes)."
     }
     fn assumptions(&self) -> Vec<&'static str> {
         vec![
@@ -265,6 +265,18 @@ impl Scenario for Ribbit {
             let t = db[0].build_time.clone();
             for r in db.iter_mut() {
                 r.build_time = t.clone();
+            }
+        }
+        // one database in eight: every record carries the date and time-of-day (first 19 bytes) of the first one and
+        // differs in what follows only - three-digit fractions of a second (text order = time order) or its own suffix
+        if rng.chance(1, 8) && db.len() >= 2 && db[0].build_time.len() >= 19 && db[0].build_time.is_char_boundary(19) {
+            let core = db[0].build_time[..19].to_string();
+            let fractions = rng.chance(2, 3);
+            for r in db.iter_mut() {
+                if r.build_time.len() >= 19 && r.build_time.is_char_boundary(19) {
+                    let suffix = if fractions { format!(".{:03}Z", rng.below(1000)) } else { r.build_time[19..].to_string() };
+                    r.build_time = format!("{core}{suffix}");
+                }
             }
         }
         // ---- shape of the database, drawn after everything else ----
@@ -535,6 +547,19 @@ async fn run(case: &Case, ctx: &mut Ctx) -> Option<Violation> {
     };
     let mixed_ts = case.db.iter().any(|r| !r.build_time.ends_with("+00:00"));
 
+    // known finding C15-F2 is "build_time values are ordered as TEXT": it covers a wrong build only where the textually
+    // greatest build_time of the product is not (one of) the chronologically newest
+    let ts_class = |product: &str, cands: &[&Rec]| -> String {
+        let top = case.db.iter().filter(|r| r.product == product).map(|r| r.build_time.as_str()).max().unwrap_or("");
+        let text_order_agrees = case.db.iter().filter(|r| r.product == product && r.build_time == top).all(|r| cands.iter().any(|c| std::ptr::eq(*c, r)));
+        if mixed_ts && !text_order_agrees {
+            ",timestamps=mixed_formats".into()
+        } else if mixed_ts {
+            ",timestamps=mixed_formats_text_order_agrees".into()
+        } else {
+            ",timestamps=uniform_utc".into()
+        }
+    };
     // judge a well-formed request's result
     let judge = |transport: &str, product: &str, endpoint: &str, res: &Result<BpsvDocument, String>| -> Result<(), (String, String, String)> {
         let known = products.iter().any(|p| p == product);
@@ -577,7 +602,7 @@ async fn run(case: &Case, ctx: &mut Ctx) -> Option<Violation> {
                     // is it some OTHER (older) record of the product?
                     let older = case.db.iter().filter(|r| r.product == product && !cands.iter().any(|c| std::ptr::eq(*c, *r))).any(|r| doc.rows().iter().zip(regions.iter()).all(|(row, region)| versions_row_matches(doc, row, region, r).is_ok()));
                     if older {
-                        return Err(("wrong_build_chosen".into(), if mixed_ts { ",timestamps=mixed_formats".into() } else { ",timestamps=uniform_utc".into() }, format!("{transport} {product}/{endpoint}: the rows describe a build that is not the chronologically newest of the product (newest build_time: {})", cands.first().map(|r| r.build_time.as_str()).unwrap_or("?"))));
+                        return Err(("wrong_build_chosen".into(), ts_class(product, &cands), format!("{transport} {product}/{endpoint}: the rows describe a build that is not the chronologically newest of the product (newest build_time: {})", cands.first().map(|r| r.build_time.as_str()).unwrap_or("?"))));
                     }
                     return Err(("field_mismatch".into(), format!(",endpoint={endpoint}"), format!("{transport} {product}/{endpoint}: {last_err}")));
                 }
@@ -603,7 +628,7 @@ async fn run(case: &Case, ctx: &mut Ctx) -> Option<Violation> {
                         doc.rows().iter().all(|row| row.get_by_name("Path", sch).and_then(|v| v.as_string().map(str::to_string)).unwrap_or_default() == path)
                     };
                     if case.db.iter().filter(|r| r.product == product && !cands.iter().any(|c| std::ptr::eq(*c, *r))).any(matches) {
-                        return Err(("wrong_build_chosen".into(), if mixed_ts { ",timestamps=mixed_formats".into() } else { ",timestamps=uniform_utc".into() }, format!("{transport} {product}/cdns: the rows carry the CDN path of a build that is not the chronologically newest of the product")));
+                        return Err(("wrong_build_chosen".into(), ts_class(product, &cands), format!("{transport} {product}/cdns: the rows carry the CDN path of a build that is not the chronologically newest of the product")));
                     }
                     return Err(("field_mismatch".into(), ",endpoint=cdns".into(), format!("{transport} {product}/cdns: the rows do not equal the resolved CDN configuration of the newest build")));
                 }
